@@ -29,6 +29,7 @@ type Scen struct {
 	ACType   string
 	acParams func() accesscontroller.ManifestParams
 	replic   *bool
+	specific func() interface{}
 	// Decoys: every instance has a second simple-controller database with another write list
 	Decoys bool
 }
@@ -49,6 +50,9 @@ type ScenOpts struct {
 	// creator: the manifest address of a simple controller is the undefined CID, which Create's
 	// own Open cannot parse; NewSimpleManifestParams is the only way in.)
 	ACNoWriteKey bool
+	// StoreSpecific, when set, is passed as CreateDBOptions.StoreSpecificOpts by the creator and
+	// by every opener of the scenario (e.g. typed documents for a document store)
+	StoreSpecific func() interface{}
 }
 
 func sharedEnv() (*sim.Env, error) {
@@ -119,7 +123,7 @@ func NewScen(n int, storeType string, o *ScenOpts) (*Scen, error) {
 		return map[string][]string{"write": append([]string{}, writers...)}
 	}
 	var ac accesscontroller.ManifestParams = &accesscontroller.CreateAccessControllerOptions{Access: access()}
-	s.ACType, s.replic = "ipfs", o.Replicate
+	s.ACType, s.replic, s.specific = "ipfs", o.Replicate, o.StoreSpecific
 	switch o.ACType {
 	case "", "ipfs":
 	case "simple":
@@ -150,7 +154,11 @@ func NewScen(n int, storeType string, o *ScenOpts) (*Scen, error) {
 		}
 		s.Decoys = true
 	}
-	st, err := s.Reps[0].Orbit.Create(ctx, "db-"+s.Label, storeType, &orbitdb.CreateDBOptions{AccessController: ac, Replicate: o.Replicate})
+	copts := &orbitdb.CreateDBOptions{AccessController: ac, Replicate: o.Replicate}
+	if o.StoreSpecific != nil {
+		copts.StoreSpecificOpts = o.StoreSpecific()
+	}
+	st, err := s.Reps[0].Orbit.Create(ctx, "db-"+s.Label, storeType, copts)
 	if err != nil {
 		return nil, fmt.Errorf("create: %w", err)
 	}
@@ -172,6 +180,9 @@ func (s *Scen) OpenOptions() *orbitdb.CreateDBOptions {
 	o := &orbitdb.CreateDBOptions{Replicate: s.replic}
 	if s.acParams != nil {
 		o.AccessController = s.acParams()
+	}
+	if s.specific != nil {
+		o.StoreSpecificOpts = s.specific()
 	}
 	return o
 }
